@@ -1330,7 +1330,8 @@ fn ix_giant_index(w: &W) -> Verdict {
             2 => 65_536,
             3 => 65_537,
             4 => n - 1,
-            5 => 65_536 + w.draw((n - 65_536) as u64) as usize,
+            // (n may be a few short of 65 536: then any record)
+            5 => 65_536 + w.draw(n.saturating_sub(65_536) as u64) as usize,
             _ => w.draw(n as u64) as usize,
         }
         .min(n - 1);
